@@ -444,7 +444,13 @@ void sm2_z256_modp_tri(sm2_z256_t r, const sm2_z256_t a)
 
 void sm2_z256_modp_neg(sm2_z256_t r, const sm2_z256_t a)
 {
+	// -0 = 0, not p
+	uint64_t mask = ~((uint64_t)0 - sm2_z256_is_zero(a));
 	(void)sm2_z256_sub(r, SM2_Z256_P, a);
+	r[0] &= mask;
+	r[1] &= mask;
+	r[2] &= mask;
+	r[3] &= mask;
 }
 
 void sm2_z256_modp_haf(sm2_z256_t r, const sm2_z256_t a)
@@ -843,7 +849,13 @@ void sm2_z256_modn_sub(sm2_z256_t r, const sm2_z256_t a, const sm2_z256_t b)
 
 void sm2_z256_modn_neg(sm2_z256_t r, const sm2_z256_t a)
 {
+	// -0 = 0, not n
+	uint64_t mask = ~((uint64_t)0 - sm2_z256_is_zero(a));
 	(void)sm2_z256_sub(r, SM2_Z256_N, a);
+	r[0] &= mask;
+	r[1] &= mask;
+	r[2] &= mask;
+	r[3] &= mask;
 }
 #endif
 
